@@ -195,6 +195,10 @@ def len (l : Lexer) : Int := l.input.size
 /-- the termination measure of the scanning loops -/
 def rem (l : Lexer) : Nat := (l.len - l.pos).toNat
 
+/-- the largest position of an item sent so far (0 if none); used by the position bound of
+    Props/C19.lean -/
+def mp (l : Lexer) : Nat := l.items.toList.foldl (fun m it => max m it.pos) 0
+
 /-- `l.next()` -/
 def next (l : Lexer) : Option (Int × Lexer) :=
   if l.pos ≥ l.len then some (eof, { l with width := 0 })
